@@ -539,6 +539,7 @@ fn main() {
     let mut levels = vec![];
     let mut probes = 0u64;
     let probe_levels = if ctx.quick() { 6 } else { 9 };
+    let probe2_levels = if ctx.quick() { 4 } else { 6 };
     for level in 0..depth {
         if ctx.stopped() || frontier.is_empty() {
             break;
@@ -596,16 +597,28 @@ fn main() {
         // implementation state the model (and the H3 snapshot) does not see - had it been left
         // behind by this particular history - shows up as a disagreement one step later.
         if level < probe_levels {
-            let probe_work: Vec<(Vec<Ev>, Ev)> = merged
-                .iter()
-                .flat_map(|(st, h)| st.enabled().into_iter().map(move |ev| (h.clone(), ev)))
-                .collect();
-            let probe_results = par_map(&probe_work, |_, (h, ev)| {
+            // one more event from every merged history; two more from the short ones
+            let mut probe_work: Vec<Vec<Ev>> = vec![];
+            for (st, h) in &merged {
+                for ev in st.enabled() {
+                    let mut h1 = h.clone();
+                    h1.push(ev);
+                    if level < probe2_levels {
+                        let mut st1 = st.clone();
+                        let _ = st1.step(ev);
+                        for ev2 in st1.enabled() {
+                            let mut h2 = h1.clone();
+                            h2.push(ev2);
+                            probe_work.push(h2);
+                        }
+                    }
+                    probe_work.push(h1);
+                }
+            }
+            let probe_results = par_map(&probe_work, |_, hist| {
                 ctx.tick();
-                let mut hist = h.clone();
-                hist.push(*ev);
-                let r = run(&hist);
-                (hist, r.failure)
+                let r = run(hist);
+                (hist.clone(), r.failure)
             });
             for (hist, failure) in probe_results {
                 probes += 1;
@@ -635,7 +648,7 @@ fn main() {
         .set("exhaustive", !ctx.stopped())
         .set("depth", depth)
         .set("differential_probes", probes)
-        .set("differential_probe_rule", format!("every history of length <= {probe_levels} that ends in an already known model state is extended by every single enabled event"))
+        .set("differential_probe_rule", format!("every history of length <= {probe_levels} that ends in an already known model state is extended by every single enabled event, those of length <= {probe2_levels} also by every pair of events"))
         .set("levels", J::Arr(levels))
         .set("frontier_states_left_unexpanded_at_bound", frontier.len())
         .set("samples", J::Arr(sample.into_iter().collect()))
